@@ -111,6 +111,16 @@ impl Ctx {
                 let nt = sa.annotations_len() > n0;
                 (req.clone(), outs, nt)
             }
+            8 => {
+                let mut store = new_store();
+                for op in req.nth(1).list() {
+                    apply_c08(&mut store, op);
+                }
+                let q = q_of(req.nth(2));
+                let outs = exec_collection(&mut store, &q, req.nth(3));
+                let nt = outs.iter().all(|o| o.list().iter().any(|r| !r.list().is_empty()));
+                (req.clone(), outs, nt)
+            }
             _ => {
                 let mut sa = new_store();
                 let mut sb = new_store();
@@ -302,6 +312,77 @@ fn aligned_shapes(ops: &[Sx], rng: &mut Rng) -> (Vec<Sx>, Vec<Q>) {
     (more, qs)
 }
 
+/// several data items with the same key and the same string value under different public ids (a set
+/// does not merge those), on annotations of their own, and exact matches DATA set key = "value" as
+/// first and (through the orderings) as later constraint of ANNOTATION, DATA and RESOURCE queries
+fn same_value_shapes(ops: &[Sx], rng: &mut Rng) -> (Vec<Sx>, Vec<Q>) {
+    let mut store = new_store();
+    for op in ops {
+        apply_c08(&mut store, op);
+    }
+    let mut more = Vec::new();
+    let cand: Vec<(usize, i64, usize)> = store
+        .resources()
+        .filter(|r| r.textlen() >= 2 && r.id().map(|i| i.starts_with('r')).unwrap_or(false))
+        .filter_map(|r| r.id().unwrap()[1..].parse::<i64>().ok().map(|t| (r.handle().as_usize(), t, r.textlen())))
+        .collect();
+    let (h, rtok, len) = if cand.is_empty() {
+        let n = store.resources_len();
+        more.push(l(vec![a(0), a(8), a(6)]));
+        (n, 8, 6)
+    } else {
+        *rng.pick(&cand)
+    };
+    let (st, kt) = (rng.below(3) as i64, rng.below(3) as i64);
+    let value: Vec<i64> = match rng.below(3) {
+        0 => vec![97],
+        1 => vec![98, 233],
+        _ => vec![110, 111, 117, 110],
+    };
+    let mut v = vec![a(4)];
+    v.extend(value.iter().map(|c| a(*c)));
+    let val = l(v);
+    let n = 2 + rng.below(2);
+    for i in 0..n {
+        let b = rng.below(len - 1);
+        let target = if rng.chance(1, 4) {
+            l(vec![a(3), l(vec![a(1), a(h as i64)])])
+        } else {
+            l(vec![a(0), l(vec![a(1), a(h as i64)]), l(vec![a(0), a(b as i64)]), l(vec![a(0), a((b + 1 + rng.below(2)).min(len) as i64)])])
+        };
+        // the last one sometimes without an id of its own (found again by key and value)
+        let did = if i + 1 == n && rng.chance(1, 3) { a(-1) } else { l(vec![a(0), a(20 + i as i64)]) };
+        let mut data = vec![l(vec![l(vec![a(0), a(st)]), did, l(vec![a(0), a(kt)]), val.clone()])];
+        if rng.chance(1, 3) {
+            data.push(l(vec![l(vec![a(0), a(st)]), a(-1), l(vec![a(0), a((kt + 1) % 3)]), l(vec![a(2), a(1)])]));
+        }
+        more.push(l(vec![a(3), a(-1), target, l(data)]));
+    }
+    let kv = |meta: bool| Cst::KeyVal(st, kt, val.clone(), meta);
+    let mut qs = Vec::new();
+    let extra = |rng: &mut Rng| -> Vec<Cst> {
+        match rng.below(3) {
+            0 => vec![],
+            1 => vec![Cst::Res(VRef::Id(rtok), false)],
+            _ => vec![Cst::Set(VRef::Id(st), false)],
+        }
+    };
+    let mut cs = vec![kv(false)];
+    cs.extend(extra(rng));
+    qs.push(Q { name: 0, rt: 0, cs, lim: None, opt: false, sub: None });
+    let mut cs = vec![kv(false)];
+    if rng.chance(1, 2) {
+        cs.push(Cst::Set(VRef::Id(st), false));
+    }
+    qs.push(Q { name: 0, rt: 1, cs, lim: None, opt: false, sub: None });
+    qs.push(Q { name: 0, rt: 3, cs: vec![kv(rng.chance(1, 3))], lim: None, opt: false, sub: None });
+    let sub = Q { name: 1, rt: 1, cs: vec![kv(false), Cst::Ann(VRef::Var(0), false)], lim: None, opt: false, sub: None };
+    qs.push(Q { name: 0, rt: 0, cs: vec![], lim: None, opt: false, sub: Some(Box::new(sub)) });
+    let sub = Q { name: 1, rt: 0, cs: vec![kv(false), Cst::Res(VRef::Var(0), false)], lim: None, opt: false, sub: None };
+    qs.push(Q { name: 0, rt: 3, cs: vec![], lim: None, opt: false, sub: Some(Box::new(sub)) });
+    (more, qs)
+}
+
 /// RELATION ?outer OP first (and, through the orderings, later) in a sub-query, ?outer bound to the
 /// annotations of the store - among them the discontinuous ones: every operator
 fn relation_queries(rng: &mut Rng) -> Vec<Q> {
@@ -375,7 +456,16 @@ pub fn generate_queries(out: &mut Out, ctx: &Ctx, tier: &str, seed: u64) {
         if i % 3 == 0 {
             let (more, qs) = aligned_shapes(&ops, &mut rng);
             ops.extend(more);
+            out.count_n("select_text_of_annotation_over_two_resources", qs.len() as u64);
             aligned = qs;
+        }
+        if i % 5 == 3 {
+            let (more, qs) = same_value_shapes(&ops, &mut rng);
+            ops.extend(more);
+            for q in qs {
+                out.count("select_same_key_and_value");
+                aligned.push(q);
+            }
         }
         cfg.pool = text_pool(&ops);
         {
@@ -447,7 +537,7 @@ pub fn generate_queries(out: &mut Out, ctx: &Ctx, tier: &str, seed: u64) {
             }
         }
         for q in &aligned {
-            out.count("select_text_of_annotation_over_two_resources");
+            out.count("select_shaped");
             for o in orderings(q) {
                 entries.push(qentry(&o));
             }
@@ -490,6 +580,47 @@ pub fn generate_queries(out: &mut Out, ctx: &Ctx, tier: &str, seed: u64) {
             out.case(&i2, &o, nt, &req);
             out.count("delete");
             out.count(&format!("delete_rt{}", var_rt(var, &sub)));
+        }
+        if i % 4 == 2 || i % 4 == 3 {
+            // a collection kept from a query, one member (mostly not the last one) removed, the
+            // collection used again
+            let ccfg = QCfg { pool: cfg.pool.clone(), facts: cfg.facts.clone(), rts: vec![0, 0, 0, 1, 1, 2, 3, 3], texts: true, unions: true, limits: true, max_depth: 1 };
+            let mut outer = Vec::new();
+            let mut q = gen_query(&mut rng, &ccfg, &mut outer, 0);
+            let mut store = new_store();
+            for op in &ops {
+                apply_c08(&mut store, op);
+            }
+            let mut coll = collection_of(&eval_prog(&store, &q)).unwrap_or_default();
+            if coll.len() < 2 {
+                // rather all items of the type
+                q.cs.clear();
+                q.lim = None;
+                q.sub = None;
+                coll = collection_of(&eval_prog(&store, &q)).unwrap_or_default();
+            }
+            let victim = if coll.is_empty() {
+                l(vec![])
+            } else if coll.len() >= 2 && rng.chance(4, 5) {
+                nats(coll[rng.below(coll.len() - 1)].clone())
+            } else if rng.chance(1, 2) {
+                nats(coll[rng.below(coll.len())].clone())
+            } else {
+                // something else of the store: what its removal takes along may be in the collection
+                match rng.below(3) {
+                    0 => nats(vec![0, rng.below(6), 0, 0]),
+                    1 => nats(vec![3, rng.below(3), 0, 0]),
+                    _ => nats(vec![4, rng.below(3), 0, 0]),
+                }
+            };
+            let req = l(vec![a(8), l(ops.clone()), q_sx(&q), victim]);
+            let (i2, o, nt) = ctx.exec(&req);
+            out.case(&i2, &o, nt, &req);
+            out.count("collection_after_removal");
+            out.count(&format!("collection_rt{}", q.rt));
+            if coll.len() >= 3 {
+                out.count("collection_of_three_or_more");
+            }
         }
         if i % 4 == 1 {
             // with an OFFSET the target is mostly a text selection or an annotation
@@ -628,6 +759,6 @@ pub fn generate(out: &mut Out, tier: &str, seed: u64) {
     }
 }
 
-pub const RULE: &str = "Layer 1 - LimitIter: exhaustive over item counts 0..=7 (thorough 12) and all (begin,end) in -9..=9 (thorough -15..=15), plus random larger ones; Handles: union and intersection of every ordered pair of duplicate-free handle lists of length <=3 over 5 handles (thorough <=4 over 6), in every order, followed by contains() probes, plus seeded random lists over up to 24 handles; from_iter/contains/sort on every list. Layers 2/3 - 4000 (thorough 60000) seeded random store histories of the C01 generator (<=12 or <=24 operations, typed values, half of them with removals); per history 3 random SELECT queries from the grammar of the fragment (result types ANNOTATION DATA KEY RESOURCE DATASET TEXT; 0-4 constraints per level out of ID, ANNOTATION, RESOURCE, DATASET, DATA set key, DATA set key op value, VALUE, DATA ?x, KEY ?x, TEXT ?x, RELATION ?x OP, TEXT literal incl. NOCASE with capitals, by id and by variable, normal and AS METADATA/TARGET; UNION of 2-3 branches; LIMIT with bounds -3..4; up to two nested (OPTIONAL) sub-queries referring to the outer variables; text literals drawn from the texts of the store), each in every order of the constraints of the outer level (<=4) and of the sub-query (<=3); every third history gets an annotation over two text selections of one resource (Multi/Composite/Directional) with simple annotations on and around its ranges, and ten queries SELECT ANNOTATION ?p { SELECT ANNOTATION|TEXT ?w WHERE RELATION ?p OP [; RESOURCE r | ANNOTATION ?p] } - one per relation operator, RELATION first and (through the orderings) later; per ordering: rows through STAMQL text, through the constructors and (queries without variables) through the iterator API, compared as sorted rows; every third history gets annotations over text of two resources made in step (Multi/Composite/Directional over the n-th text selection of each, so that the text selection handles coincide across resources; sometimes the same text twice) and TEXT queries starting from them (SELECT TEXT WHERE ANNOTATION id [AS TARGET] [; RESOURCE r], SELECT ANNOTATION ?a { SELECT [OPTIONAL] TEXT WHERE ANNOTATION ?a }); every third history gets annotations on text with capitals (ASCII and non-ASCII) and TEXT AS NOCASE queries with the literal in another case, first and later; every 4th history a DELETE query (also over nested selects, the deleted variable bound by the outer or the inner one; half of them over annotations as STAMQL text, the rest over data, keys, resources and data sets through the constructors - an item in several rows is removed once - or over a TEXT variable: an error) and every 4th an ADD ANNOTATION query (half of them TARGET ?x OFFSET b e on TEXT / ANNOTATION variables, begin- and end-aligned, also out of range) through query_mut, next to the direct calls, compared through the store observation of C01; DELETE without sub-query. Non-trivial: some row is returned / an annotation is added / removed. distinct = distinct request lines.";
+pub const RULE: &str = "Layer 1 - LimitIter: exhaustive over item counts 0..=7 (thorough 12) and all (begin,end) in -9..=9 (thorough -15..=15), plus random larger ones; Handles: union and intersection of every ordered pair of duplicate-free handle lists of length <=3 over 5 handles (thorough <=4 over 6), in every order, followed by contains() probes, plus seeded random lists over up to 24 handles; from_iter/contains/sort on every list. Layers 2/3 - 4000 (thorough 60000) seeded random store histories of the C01 generator (<=12 or <=24 operations, typed values, half of them with removals); per history 3 random SELECT queries from the grammar of the fragment (result types ANNOTATION DATA KEY RESOURCE DATASET TEXT; 0-4 constraints per level out of ID, ANNOTATION, RESOURCE, DATASET, DATA set key, DATA set key op value, VALUE, DATA ?x, KEY ?x, TEXT ?x, RELATION ?x OP, TEXT literal incl. NOCASE with capitals, by id and by variable, normal and AS METADATA/TARGET; UNION of 2-3 branches; LIMIT with bounds -3..4; up to two nested (OPTIONAL) sub-queries referring to the outer variables; text literals drawn from the texts of the store), each in every order of the constraints of the outer level (<=4) and of the sub-query (<=3); every third history gets an annotation over two text selections of one resource (Multi/Composite/Directional) with simple annotations on and around its ranges, and ten queries SELECT ANNOTATION ?p { SELECT ANNOTATION|TEXT ?w WHERE RELATION ?p OP [; RESOURCE r | ANNOTATION ?p] } - one per relation operator, RELATION first and (through the orderings) later; per ordering: rows through STAMQL text, through the constructors and (queries without variables) through the iterator API, compared as sorted rows; every third history gets annotations over text of two resources made in step (Multi/Composite/Directional over the n-th text selection of each, so that the text selection handles coincide across resources; sometimes the same text twice) and TEXT queries starting from them (SELECT TEXT WHERE ANNOTATION id [AS TARGET] [; RESOURCE r], SELECT ANNOTATION ?a { SELECT [OPTIONAL] TEXT WHERE ANNOTATION ?a }); every third history gets annotations on text with capitals (ASCII and non-ASCII) and TEXT AS NOCASE queries with the literal in another case, first and later; every 4th history a DELETE query (also over nested selects, the deleted variable bound by the outer or the inner one; half of them over annotations as STAMQL text, the rest over data, keys, resources and data sets through the constructors - an item in several rows is removed once - or over a TEXT variable: an error) and every 4th an ADD ANNOTATION query (half of them TARGET ?x OFFSET b e on TEXT / ANNOTATION variables, begin- and end-aligned, also out of range) through query_mut, next to the direct calls, compared through the store observation of C01; DELETE without sub-query; every fifth history gets two or three annotations whose data items have the same key and the same string value under different public ids, and exact matches DATA set key = value first and later in ANNOTATION / DATA / RESOURCE queries and sub-queries; every second history a collection request: the distinct outer items of a random query (ANNOTATION, DATA, KEY or RESOURCE) are kept as handles, one member (4 of 5 times not the last one; sometimes another item whose removal takes members along) is removed by the direct call, then the collection is read back through Handles::items(), as the constraint Annotations/Data/Keys/Resources of a query, and through filter_any. Non-trivial: some row is returned / an annotation is added / removed. distinct = distinct request lines.";
 
 pub const EXHAUSTIVE: bool = true;
